@@ -190,3 +190,165 @@ Proof.
   - rewrite (add_inexact_iff p a b r Wa Wb Xa Xb Hr), K1. reflexivity.
   - now apply representable_complete.
 Qed.
+
+(* ================================================= the same for - and *, uniformly *)
+(* checked_mul answers None exactly when the cross-reduced numerator or denominator
+   product leaves the machine width (nr:805-821) *)
+Definition mul_fits w (a b : ratio) : bool :=
+  let '(an, ad) := a in
+  let '(bn, bd) := b in
+  let g1 := Z.gcd an bd in
+  let g2 := Z.gcd ad bn in
+  in_int w (Z.quot an g1 * Z.quot bn g2) && in_int w (Z.quot ad g2 * Z.quot bd g1).
+
+Lemma rchecked_mul_fits p w a b : 2 <= w -> rok w a -> rok w b ->
+  if mul_fits w a b then exists r, rchecked_mul p w a b = Ok (Some r)
+  else rchecked_mul p w a b = Ok None.
+Proof.
+  intros Hw [Han [Had Pa]] [Hbn [Hbd Pb]]. destruct a as [an ad], b as [bn bd]. cbn [fst snd] in *.
+  unfold rchecked_mul, mul_fits.
+  assert (MINneg : imin w < 0) by (apply imin_neg; lia).
+  pose proof Had as X. pose proof Hbd as Y. apply in_int_iff in X. apply in_int_iff in Y.
+  rewrite (igcd_spec p w an bd); try assumption.
+  2:{ split; intros E; [split|]; lia. }
+  cbn [bind].
+  rewrite (igcd_spec p w ad bn); try assumption.
+  2:{ split; intros E; [|split]; lia. }
+  cbn [bind].
+  set (g1 := Z.gcd an bd). set (g2 := Z.gcd ad bn).
+  assert (P1 : 0 < g1) by (apply gcd_pos_r; exact Pb).
+  assert (P2 : 0 < g2) by (subst g2; rewrite Z.gcd_comm; apply gcd_pos_r; exact Pa).
+  rewrite !idiv_ok by lia. cbn [bind]. unfold ichecked_mul.
+  destruct (in_int w (Z.quot an g1 * Z.quot bn g2)) eqn:R1; cbn [andb]; [|now rewrite ichecked_out].
+  rewrite ichecked_in by exact R1.
+  rewrite ?idiv_ok by lia. cbn [bind].
+  destruct (in_int w (Z.quot ad g2 * Z.quot bd g1)) eqn:R2; [|now rewrite ichecked_out].
+  rewrite ichecked_in by exact R2.
+  assert (Pd : 0 < Z.quot ad g2 * Z.quot bd g1).
+  { destruct (Z.gcd_divide_l ad bn) as [y1 E3]. destruct (Z.gcd_divide_r an bd) as [y2 E2].
+    fold g2 in E3. fold g1 in E2. rewrite E3, E2, !Z.quot_mul by lia. nia. }
+  destruct (rreduce_pos p w _ _ Hw R1 R2 Pd) as [n' [d' [Hr _]]].
+  unfold rnew. rewrite Hr. cbn [bind]. eexists. reflexivity.
+Qed.
+
+Inductive aop3 := AAdd | ASub | AMul.
+Definition op_fn (o : aop3) : profile -> num -> num -> out num :=
+  match o with AAdd => num_add | ASub => num_sub | AMul => num_mul end.
+Definition op_q (o : aop3) : Q -> Q -> Q :=
+  match o with AAdd => Qplus | ASub => Qminus | AMul => Qmult end.
+Definition ratio_fits (o : aop3) (a b : ratio) : bool :=
+  match o with
+  | AAdd => addsub_fits false 32 a b
+  | ASub => addsub_fits true 32 a b
+  | AMul => mul_fits 32 a b
+  end.
+(* the explicit conditions under which number.rs Add / Sub / Mul leave the exact
+   representations; note the operand order of the Rational-Fixnum arms *)
+Definition op_takes_fallback (o : aop3) (a b : num) : bool :=
+  match a, b with
+  | Fixnum l, Rational n d => negb (in_i32 l) || negb (ratio_fits o (l, 1) (n, d))
+  | Rational n d, Fixnum l =>
+      negb (in_i32 l) ||
+      negb (match o with ASub => ratio_fits o (n, d) (l, 1) | _ => ratio_fits o (l, 1) (n, d) end)
+  | BigInt _, Rational _ d | Rational _ d, BigInt _ => negb (d =? 1)
+  | Rational ln ld, Rational rn rd => negb (ratio_fits o (ln, ld) (rn, rd))
+  | _, _ => false
+  end.
+Definition op_known_fallback (o : aop3) (a b : num) : bool :=
+  op_takes_fallback o a b && representable (op_q o (qv a) (qv b)).
+
+Lemma big_ratio_is_exact (rn rd : Z) (k : Z -> num) (fb : num) r :
+  (forall i, is_exact (k i) = true) -> is_exact fb = false ->
+  (if ris_integer (rn, rd) then do i <- rto_integer W32 (rn, rd); Ok (k i) else Ok fb) = Ok r ->
+  is_exact r = negb (negb (rd =? 1)).
+Proof.
+  intros Hk Hfb H. unfold ris_integer in H. cbn [snd] in H. destruct (rd =? 1); cbn [negb].
+  - destruct (rto_integer W32 (rn, rd)); cbn [bind] in H; inv_ok H. apply Hk.
+  - inv_ok H. exact Hfb.
+Qed.
+
+Theorem op_inexact_iff o p a b r :
+  wfb a = true -> wfb b = true -> is_exact a = true -> is_exact b = true ->
+  op_fn o p a b = Ok r -> is_exact r = negb (op_takes_fallback o a b).
+Proof.
+  intros Wa Wb Xa Xb Hr. assert (H32 : 2 <= 32) by lia.
+  destruct a as [l|l|ln ld|fl]; destruct b as [r0|r0|rn rd|fr]; try discriminate;
+    cbn [wfb op_takes_fallback] in *;
+    try (apply rwfb_rwf in Wa); try (apply rwfb_rwf in Wb).
+  - destruct o; cbn [op_fn num_add num_sub num_mul] in Hr;
+      match type of Hr with Ok (match ?c with _ => _ end) = _ => destruct c end; inv_ok Hr; reflexivity.
+  - destruct o; cbn [op_fn num_add num_sub num_mul] in Hr; inv_ok Hr; reflexivity.
+  - destruct (in_i32 l) eqn:E; cbn [negb orb].
+    2:{ destruct o; cbn [op_fn num_add num_sub num_mul] in Hr; rewrite E in Hr; inv_ok Hr; reflexivity. }
+    rewrite negb_involutive.
+    destruct o; cbn [op_fn num_add num_sub num_mul ratio_fits] in *; rewrite E in Hr;
+      (eapply or_float_is_exact; [|exact Hr]).
+    + exact (rchecked_addsub_fits false p 32 (rfrom_integer l) (rn, rd) H32 (rok_int l E) (rwf_rok _ _ Wb)).
+    + exact (rchecked_addsub_fits true p 32 (rfrom_integer l) (rn, rd) H32 (rok_int l E) (rwf_rok _ _ Wb)).
+    + exact (rchecked_mul_fits p 32 (rfrom_integer l) (rn, rd) H32 (rok_int l E) (rwf_rok _ _ Wb)).
+  - destruct o; cbn [op_fn num_add num_sub num_mul] in Hr; inv_ok Hr; reflexivity.
+  - destruct o; cbn [op_fn num_add num_sub num_mul] in Hr; inv_ok Hr; reflexivity.
+  - destruct o; cbn [op_fn num_add num_sub num_mul] in Hr;
+      (eapply big_ratio_is_exact; [| |exact Hr]; [intros i; reflexivity|reflexivity]).
+  - destruct (in_i32 r0) eqn:E; cbn [negb orb].
+    2:{ destruct o; cbn [op_fn num_add num_sub num_mul] in Hr; rewrite E in Hr; inv_ok Hr; reflexivity. }
+    rewrite negb_involutive.
+    destruct o; cbn [op_fn num_add num_sub num_mul ratio_fits] in *; rewrite E in Hr;
+      (eapply or_float_is_exact; [|exact Hr]).
+    + exact (rchecked_addsub_fits false p 32 (rfrom_integer r0) (ln, ld) H32 (rok_int r0 E) (rwf_rok _ _ Wa)).
+    + exact (rchecked_addsub_fits true p 32 (ln, ld) (rfrom_integer r0) H32 (rwf_rok _ _ Wa) (rok_int r0 E)).
+    + exact (rchecked_mul_fits p 32 (rfrom_integer r0) (ln, ld) H32 (rok_int r0 E) (rwf_rok _ _ Wa)).
+  - destruct o; cbn [op_fn num_add num_sub num_mul] in Hr;
+      (eapply big_ratio_is_exact; [| |exact Hr]; [intros i; reflexivity|reflexivity]).
+  - rewrite negb_involutive.
+    destruct o; cbn [op_fn num_add num_sub num_mul ratio_fits] in *; (eapply or_float_is_exact; [|exact Hr]).
+    + exact (rchecked_addsub_fits false p 32 (ln, ld) (rn, rd) H32 (rwf_rok _ _ Wa) (rwf_rok _ _ Wb)).
+    + exact (rchecked_addsub_fits true p 32 (ln, ld) (rn, rd) H32 (rwf_rok _ _ Wa) (rwf_rok _ _ Wb)).
+    + exact (rchecked_mul_fits p 32 (ln, ld) (rn, rd) H32 (rwf_rok _ _ Wa) (rwf_rok _ _ Wb)).
+Qed.
+
+Theorem op_inexact_only_if o p a b r :
+  wfb a = true -> wfb b = true -> is_exact a = true -> is_exact b = true ->
+  op_known_fallback o a b = false -> op_fn o p a b = Ok r -> is_exact r = false ->
+  forall x, wfb x = true -> is_exact x = true -> ~ (qv x == op_q o (qv a) (qv b))%Q.
+Proof.
+  intros Wa Wb Xa Xb NK Hr Xr.
+  rewrite (op_inexact_iff o p a b r Wa Wb Xa Xb Hr) in Xr. apply negb_false_iff in Xr.
+  unfold op_known_fallback in NK. rewrite Xr in NK. cbn [andb] in NK.
+  now apply unrepresentable_spec.
+Qed.
+
+Theorem op_known_fallback_tight o p a b r :
+  wfb a = true -> wfb b = true -> is_exact a = true -> is_exact b = true ->
+  op_known_fallback o a b = true -> op_fn o p a b = Ok r ->
+  is_exact r = false /\
+  exists x, wfb x = true /\ is_exact x = true /\ (qv x == op_q o (qv a) (qv b))%Q.
+Proof.
+  intros Wa Wb Xa Xb K Hr. unfold op_known_fallback in K. apply andb_true_iff in K. destruct K as [K1 K2].
+  split.
+  - rewrite (op_inexact_iff o p a b r Wa Wb Xa Xb Hr), K1. reflexivity.
+  - now apply representable_complete.
+Qed.
+
+(* C08_full restricted to + - * and to the complement of the decidable defect class: total,
+   well-formed, exact results are right, inexact results are justified — both profiles *)
+Theorem op_full_outside o p a b :
+  wfb a = true -> wfb b = true -> is_exact a = true -> is_exact b = true ->
+  op_known_fallback o a b = false ->
+  exists r, op_fn o p a b = Ok r /\ wfb r = true /\
+    (is_exact r = true -> (qv r == op_q o (qv a) (qv b))%Q) /\
+    (is_exact r = false ->
+     forall x, wfb x = true -> is_exact x = true -> ~ (qv x == op_q o (qv a) (qv b))%Q).
+Proof.
+  intros Wa Wb Xa Xb NK.
+  destruct (addsubmul_total p a b Wa Wb Xa Xb) as [[r1 H1] [[r2 H2] [r3 H3]]].
+  assert (T : exists r, op_fn o p a b = Ok r) by (destruct o; cbn [op_fn]; eauto).
+  destruct T as [r Hr]. exists r. split; [exact Hr|].
+  assert (EX : is_exact r = true -> wfb r = true /\ (qv r == op_q o (qv a) (qv b))%Q).
+  { intros Xr. destruct o; cbn [op_fn op_q] in *;
+      [eapply add_exact|eapply sub_exact|eapply mul_exact]; eassumption. }
+  split; [|split].
+  - destruct (is_exact r) eqn:Xr; [now apply EX|]. destruct r; try discriminate. reflexivity.
+  - intros Xr. now apply EX.
+  - intros Xr. eapply op_inexact_only_if; eassumption.
+Qed.
